@@ -37,7 +37,7 @@ ASSUMPTIONS = [
 ]
 MUST_REACH = {
     "enc_cases": 1, "dec_cases": 1, "dec_refused": 1, "dec_wrap_inputs": 1, "dec_trailing_zero_inputs": 1,
-    "enc_runs_over_255": 1, "header_peeks": 1, "dec_between_cap": 1, "enc_repeat_after_mutation": 100,
+    "enc_runs_over_255": 1, "header_peeks": 1, "dec_between_cap": 1, "enc_repeat_after_mutation": 100, "enc_at_size_boundary": 12,
 }
 
 
@@ -253,6 +253,21 @@ def run(ctx):
         check_encoder(ctx, s, "rand")
         d = bytes(rng.choice([0, 0, 1, 2, 0xff, rng.getrandbits(8)]) for _ in range(rng.randint(0, 400)))
         check_decoder(ctx, d, "rand")
+
+    # 5b. lengths at the size boundary itself: a string of exactly the cap still round-trips, whatever it is made of
+    if ctx.shard == 0:
+        for ln in (CAP - 2, CAP - 1, CAP):
+            for fill in ("nonzero", "zeros", "alternating", "sparse"):
+                if fill == "nonzero":
+                    s = bytes([7]) * ln
+                elif fill == "zeros":
+                    s = bytes(ln)
+                elif fill == "alternating":
+                    s = (b"\x00\x05" * ln)[:ln]
+                else:
+                    s = bytes(0 if i % 37 else 9 for i in range(ln))
+                ctx.count("enc_at_size_boundary")
+                check_encoder(ctx, s, "boundary")
 
     # 6. header peek
     check_header_peek(ctx, rng)
